@@ -10,9 +10,26 @@ import (
 
 // ---- contract IR for update pairs (C27) ---------------------------------------------
 
+// ImpContract is a second, fixed contract the generated contracts import, so that
+// types and conformances can be written through an imported contract (Imp.A, Imp.I).
+const ImpContract = `access(all) contract Imp {
+    access(all) struct interface I {}
+    access(all) struct interface J {}
+    access(all) resource interface RI {}
+    access(all) resource interface RJ {}
+    access(all) struct A { access(all) let a: Int; init() { self.a = 1 } }
+    access(all) struct B { access(all) let b: Int; init() { self.b = 2 } }
+}
+`
+
+func isExt(name string) bool { return strings.HasPrefix(name, "Imp.") }
+
+// norm strips the spelling "C." from a conformance written in qualified form.
+func (c *UContract) norm(cf string) string { return strings.TrimPrefix(cf, c.Name+".") }
+
 // UType is a field type of the generated contracts.
 type UType struct {
-	K    string // Int Int8 String Bool | opt arr carr dict | named (composite or enum) | iface ({Name})
+	K    string // Int Int8 String Bool | opt arr carr dict | named (composite or enum) | iface ({Name}) | ext (Imp.A / Imp.B) | cap (Capability<&Elem>, contract fields only)
 	Elem *UType
 	N    int    // carr size
 	Name string // named / iface
@@ -94,7 +111,7 @@ func (c *UContract) isResource(t *UType) bool {
 		d := c.decl(t.Name)
 		return d != nil && (d.Kind == "resource" || d.Kind == "rinterface")
 	}
-	return false
+	return false // ext types are structs; a capability is a struct value
 }
 
 func (c *UContract) bare(t *UType) string {
@@ -117,6 +134,10 @@ func (c *UContract) bare(t *UType) string {
 			return "{" + c.Name + "." + t.Name + "}"
 		}
 		return "{" + t.Name + "}"
+	case "ext":
+		return "Imp." + t.Name
+	case "cap":
+		return "Capability<&" + c.bare(t.Elem) + ">"
 	}
 	return t.K
 }
@@ -136,6 +157,7 @@ func (c *UContract) closure(d *UDecl) []string {
 	var walk func(names []string)
 	walk = func(names []string) {
 		for _, n := range names {
+			n = c.norm(n)
 			if seen[n] {
 				continue
 			}
@@ -220,6 +242,10 @@ func (c *UContract) value(t *UType, seed int) string {
 			return "<- create " + d.Name + "()"
 		}
 		return d.Name + "()"
+	case "ext":
+		return "Imp." + t.Name + "()"
+	case "cap":
+		return fmt.Sprintf("self.account.capabilities.storage.issue<&%s>(/storage/capTarget%d)", c.bare(t.Elem), seed)
 	}
 	panic("capgen: value of " + t.K)
 }
@@ -269,7 +295,7 @@ func (c *UContract) initStmt(f UField) string {
 // reader (functions may change freely between versions).
 func (c *UContract) Source(withChk bool) string {
 	var b strings.Builder
-	fmt.Fprintf(&b, "access(all) contract %s {\n", c.Name)
+	fmt.Fprintf(&b, "import Imp from 0x%x\naccess(all) contract %s {\n", UpdateAccount, c.Name)
 	for _, r := range c.Removed {
 		fmt.Fprintf(&b, "    #removedType(%s)\n", r)
 	}
@@ -390,7 +416,12 @@ func (c *UContract) randType(ch Chooser, upto int, allowRes bool, depth int) *UT
 	case 7:
 		return &UType{K: "dict", Elem: c.randType(ch, upto, allowRes, depth+1)}
 	default:
-		return named[ch.Intn("named", len(named))]
+		if Chance(ch, "ext", 1, 6) {
+			return &UType{K: "ext", Name: []string{"A", "B"}[ch.Intn("extname", 2)]}
+		}
+		t := named[ch.Intn("named", len(named))]
+		t.Qualified = Chance(ch, "qualified", 2, 5)
+		return t
 	}
 }
 
@@ -442,10 +473,16 @@ func GenUContract(ch Chooser, name string) *UContract {
 			if i == 0 || Chance(ch, "conforms", 1, 2) {
 				d.Conforms = []string{[]string{"SI", "SI2", "SI2"}[ch.Intn("iface", 3)]}
 			}
+			if Chance(ch, "extconforms", 1, 3) {
+				d.Conforms = append(d.Conforms, []string{"Imp.I", "Imp.J"}[ch.Intn("extiface", 2)])
+			}
 		} else {
 			d.Name = c.fresh("R")
 			if Chance(ch, "conforms", 1, 2) {
 				d.Conforms = []string{[]string{"RI", "RI2", "RI2"}[ch.Intn("iface", 3)]}
+			}
+			if Chance(ch, "extconforms", 1, 3) {
+				d.Conforms = append(d.Conforms, []string{"Imp.RI", "Imp.RJ"}[ch.Intn("extiface", 2)])
 			}
 		}
 		upto := len(c.Decls)
@@ -455,7 +492,13 @@ func GenUContract(ch Chooser, name string) *UContract {
 		}
 	}
 	for k := 0; k < ch.Intn("cfields", 4); k++ {
-		c.Fields = append(c.Fields, c.randField(ch, len(c.Decls), true))
+		f := c.randField(ch, len(c.Decls), true)
+		if comps := c.composites(); Chance(ch, "capfield", 1, 4) {
+			d := comps[ch.Intn("captarget", len(comps))]
+			f.Type = &UType{K: "cap", Elem: &UType{K: "named", Name: d.Name, Qualified: Chance(ch, "qualified", 1, 2)}}
+			f.Seed = k
+		}
+		c.Fields = append(c.Fields, f)
 	}
 	return c
 }
@@ -466,7 +509,7 @@ func GenUContract(ch Chooser, name string) *UContract {
 var MutationKinds = []string{
 	"field-add", "field-remove", "field-retype", "field-retype-subtle", "field-reorder", "field-rename", "field-access", "field-let-var",
 	"decl-add", "decl-remove", "decl-remove-pragma", "conformance-add", "conformance-remove",
-	"iface-inherit-remove", "iface-inherit-add",
+	"iface-inherit-remove", "iface-inherit-add", "field-retype-sibling", "conformance-swap",
 	"enum-case-append", "enum-case-insert", "enum-case-remove", "enum-case-swap", "enum-rawtype", "kind-change",
 	"contract-field-add", "contract-field-remove", "contract-field-retype",
 }
@@ -495,7 +538,7 @@ func (c *UContract) refs(name string) bool {
 			}
 		}
 		for _, cf := range d.Conforms {
-			if cf == name {
+			if c.norm(cf) == name {
 				return true
 			}
 		}
@@ -581,12 +624,16 @@ func (c *UContract) Mutate(ch Chooser) string {
 	weights := make([]int, len(MutationKinds))
 	for i, k := range MutationKinds {
 		switch k {
-		case "field-retype-subtle":
+		case "field-retype-subtle", "field-retype-sibling":
 			weights[i] = 8
+		case "conformance-swap":
+			weights[i] = 5
 		case "iface-inherit-remove":
 			weights[i] = 5
 		case "contract-field-retype", "enum-case-swap", "enum-case-insert", "conformance-remove":
 			weights[i] = 3
+		case "field-remove", "field-reorder", "field-access", "field-let-var", "conformance-add", "enum-case-append", "contract-field-remove":
+			weights[i] = 4 // usually accepted: these make the reader run over changed declarations
 		default:
 			weights[i] = 2
 		}
@@ -692,6 +739,74 @@ func (c *UContract) Mutate(ch Chooser) string {
 		if kind == "decl-remove-pragma" {
 			c.Removed = append(c.Removed, d.Name)
 		}
+	case "field-retype-sibling":
+		// change only the name of a nominal type inside the field's type, keeping the
+		// spelling (qualified or not) and every wrapper: A -> B of the same kind
+		type slot struct {
+			leaf *UType
+			upto int
+			res  bool
+		}
+		var slots, qualified []slot
+		var collect func(t *UType, upto int, res bool)
+		collect = func(t *UType, upto int, res bool) {
+			if t == nil {
+				return
+			}
+			if t.K == "named" || t.K == "iface" || t.K == "ext" {
+				sl := slot{t, upto, res}
+				slots = append(slots, sl)
+				if t.Qualified || t.K == "ext" {
+					qualified = append(qualified, sl)
+				}
+			}
+			collect(t.Elem, upto, res)
+		}
+		for i, d := range c.Decls {
+			for j := range d.Fields {
+				collect(d.Fields[j].Type, i, d.Kind == "resource")
+			}
+		}
+		for j := range c.Fields {
+			collect(c.Fields[j].Type, len(c.Decls), true)
+		}
+		if len(qualified) > 0 && !Chance(ch, "unqualified", 1, 4) {
+			slots = qualified
+		}
+		if len(slots) == 0 {
+			return ""
+		}
+		sl := slots[ch.Intn("slot", len(slots))]
+		if sl.leaf.K == "ext" {
+			sl.leaf.Name = map[string]string{"A": "B", "B": "A"}[sl.leaf.Name]
+			break
+		}
+		old := c.decl(sl.leaf.Name)
+		var sib []string
+		for i, d := range c.Decls {
+			if d.Kind == old.Kind && d.Name != old.Name && (i < sl.upto || d.Kind == "sinterface" || d.Kind == "rinterface") {
+				sib = append(sib, d.Name)
+			}
+		}
+		if len(sib) == 0 {
+			return ""
+		}
+		sl.leaf.Name = sib[ch.Intn("sibling", len(sib))]
+	case "conformance-swap":
+		var cand []*UDecl
+		for _, d := range comps {
+			if len(d.Conforms) > 0 {
+				cand = append(cand, d)
+			}
+		}
+		if len(cand) == 0 {
+			return ""
+		}
+		d := cand[ch.Intn("decl", len(cand))]
+		i := ch.Intn("conf", len(d.Conforms))
+		swap := map[string]string{"SI": "SI2", "SI2": "SI", "RI": "RI2", "RI2": "RI",
+			"Imp.I": "Imp.J", "Imp.J": "Imp.I", "Imp.RI": "Imp.RJ", "Imp.RJ": "Imp.RI"}
+		d.Conforms[i] = swap[d.Conforms[i]]
 	case "iface-inherit-remove":
 		var cand []*UDecl
 		for _, d := range c.Decls {
@@ -716,7 +831,7 @@ func (c *UContract) Mutate(ch Chooser) string {
 			want = "R" + want[1:]
 		}
 		for _, cf := range d.Conforms {
-			if cf == want {
+			if c.norm(cf) == want {
 				return ""
 			}
 		}
@@ -875,6 +990,9 @@ func (c *UContract) wellFormed() bool {
 				return false
 			}
 			return allowRes || !c.isResource(t)
+		case "cap":
+			d := c.decl(t.Elem.Name)
+			return t.Elem.K == "named" && d != nil && (d.Kind == "struct" || d.Kind == "resource")
 		}
 		return true
 	}
@@ -884,9 +1002,22 @@ func (c *UContract) wellFormed() bool {
 				return false
 			}
 		}
+		seenConf := map[string]bool{}
 		for _, cf := range d.Conforms {
+			cf = c.norm(cf)
+			if seenConf[cf] {
+				return false
+			}
+			seenConf[cf] = true
+			structSide := d.Kind == "struct" || d.Kind == "sinterface"
+			if isExt(cf) {
+				if structSide != (cf == "Imp.I" || cf == "Imp.J") {
+					return false
+				}
+				continue
+			}
 			id := c.decl(cf)
-			if id == nil || (d.Kind == "struct" || d.Kind == "sinterface") != (id.Kind == "sinterface") {
+			if id == nil || structSide != (id.Kind == "sinterface") || id == d {
 				return false
 			}
 		}
@@ -915,6 +1046,7 @@ type StoredItem struct {
 type UpdatePair struct {
 	V1, V2    *UContract
 	Mutations []string
+	ImpCode   string // deployed as Imp at UpdateAccount before v1
 	V1Code    string
 	V2Code    string
 	StoreTx   []string // one per account (1, 2)
@@ -938,8 +1070,8 @@ const UpdateAccount = 1
 func GenUpdatePair(ch Chooser) *UpdatePair {
 	v1 := GenUContract(ch, "C")
 	v2 := v1.clone()
-	p := &UpdatePair{V1: v1, V2: v2}
-	n := 1 + Weighted(ch, "mutations", []int{5, 3, 2})
+	p := &UpdatePair{V1: v1, V2: v2, ImpCode: ImpContract}
+	n := 1 + Weighted(ch, "mutations", []int{6, 3, 1})
 	for tries := 0; len(p.Mutations) < n && tries < 12; tries++ {
 		save := v2.clone()
 		k := v2.Mutate(ch)
@@ -1038,7 +1170,7 @@ func GenUpdatePair(ch Chooser) *UpdatePair {
 				i, acc, amp, it.Path, i, it.Acct, it.Path)
 			for _, cf := range it.Conforms {
 				still := v2.conformsTo(d2, cf)
-				if v2.decl(cf) == nil || !still {
+				if (!isExt(cf) && v2.decl(cf) == nil) || !still {
 					// conformance is nominal: without the declaration in v2 the stored value
 					// cannot be an instance of the interface any more
 					p.Lost = append(p.Lost, fmt.Sprintf("conformance %s: %s", it.Decl, cf))
@@ -1048,15 +1180,15 @@ func GenUpdatePair(ch Chooser) *UpdatePair {
 				if it.Kind == "resource" {
 					at = "@"
 				}
-				fmt.Fprintf(&body, "    if !Type<%sC.%s>().isSubtype(of: Type<%s{C.%s}>()) { out.append(\"%d:%s no longer conforms to %s\") }\n",
-					at, it.Decl, at, cf, it.Acct, it.Path, cf)
+				fmt.Fprintf(&body, "    if !Type<%sC.%s>().isSubtype(of: Type<%s{%s}>()) { out.append(\"%d:%s no longer conforms to %s\") }\n",
+					at, it.Decl, at, qualName(cf), it.Acct, it.Path, cf)
 			}
 			fmt.Fprintf(&body, "  } else { out.append(\"%d:%s cannot be borrowed\") }\n", it.Acct, it.Path)
 			if it.Kind == "struct" {
 				fmt.Fprintf(&body, "  if let w%d = %s.storage.copy<C.%s>(from: %s) {\n", i, acc, it.Decl, it.Path)
 				for _, cf := range it.Conforms {
-					if v2.decl(cf) != nil {
-						fmt.Fprintf(&body, "    if !w%d.isInstance(Type<{C.%s}>()) { out.append(\"%d:%s is not an instance of %s\") }\n", i, cf, it.Acct, it.Path, cf)
+					if isExt(cf) || v2.decl(cf) != nil {
+						fmt.Fprintf(&body, "    if !w%d.isInstance(Type<{%s}>()) { out.append(\"%d:%s is not an instance of %s\") }\n", i, qualName(cf), it.Acct, it.Path, cf)
 					}
 				}
 				fmt.Fprintf(&body, "  } else { out.append(\"%d:%s cannot be copied\") }\n", it.Acct, it.Path)
@@ -1064,8 +1196,16 @@ func GenUpdatePair(ch Chooser) *UpdatePair {
 		}
 	}
 	sort.Strings(p.Lost)
-	p.Reader = fmt.Sprintf("import C from 0x%x\naccess(all) fun main(): [String] {\n  let out: [String] = []\n%s  return out\n}\n", UpdateAccount, body.String())
+	p.Reader = fmt.Sprintf("import Imp from 0x1\nimport C from 0x%x\naccess(all) fun main(): [String] {\n  let out: [String] = []\n%s  return out\n}\n", UpdateAccount, body.String())
 	return p
+}
+
+// qualName spells an interface name for use outside the contract.
+func qualName(cf string) string {
+	if isExt(cf) {
+		return cf
+	}
+	return "C." + cf
 }
 
 // changedDecls compares the declarations of the two versions structurally.
@@ -1091,6 +1231,7 @@ func changedDecls(a, b *UContract) map[string]bool {
 // Prog converts the pair to the common executable form.
 func (p *UpdatePair) Prog() prog.History {
 	h := prog.History{Origin: "capgen.updates", Features: append([]string{"contract-update"}, p.Mutations...)}
+	h.Steps = append(h.Steps, prog.Step{Kind: prog.Deploy, Name: "Imp", Source: p.ImpCode, Signers: []uint64{UpdateAccount}})
 	h.Steps = append(h.Steps, prog.Step{Kind: prog.Deploy, Name: "C", Source: p.V1Code, Signers: []uint64{UpdateAccount}})
 	for i, tx := range p.StoreTx {
 		h.Steps = append(h.Steps, prog.Step{Kind: prog.Tx, Source: tx, Signers: []uint64{uint64(i + 1)}})
